@@ -632,7 +632,8 @@ func http1SurplusDecidedOnCounts(c *Ctx, rule, key string) {
 		return methodName(cc) == "Read" && strings.Contains(calleeName(cc), "fasthttp.Response")
 	})
 	goaway := callsIn(fn, false, calledAs("OnGoAway"))
-	if len(reads) != 1 || len(goaway) == 0 {
+	// repair 156: the response is read again while the status is an interim 1xx - one or more Read calls
+	if len(reads) == 0 || len(goaway) == 0 {
 		c.Fail(rule, funcKey(fn)+":"+key, fn.Pos(), "Response.Read / OnGoAway not found in serve")
 		return
 	}
@@ -697,9 +698,11 @@ func http1SurplusDecidedOnCounts(c *Ctx, rule, key string) {
 			walk(s, b, f, val)
 		}
 	}
-	rb := reads[0].Instr.Block()
-	for _, s := range rb.Succs {
-		walk(s, rb, facts{}, 0)
+	for _, rd := range reads {
+		rb := rd.Instr.Block()
+		for _, s := range rb.Succs {
+			walk(s, rb, facts{}, 0)
+		}
 	}
 	c.Check(rule, funcKey(fn)+":"+key, nearestPos(flagIf), !bad, "on every path that keeps the connection, br.Buffered() == 0 and unread <= 0 are established",
 		"serve can keep the connection although it has not established that both the reader (br.Buffered()) and the dispatched buffer (unread) are empty - the surplus test looks at the content of the left-over bytes or skips one of the two counts: bytes the upstream sent behind its response stay on a connection that goes back to the pool and are read as the response of the next request")
